@@ -46,8 +46,8 @@ def parseOp : List String → Option Op
     let info : Info := { url := norm, host := host, scheme := scheme, secret := secret, limit := lim, stream := st, screen := sc }
     some (.put key (if valid then some info else none))
   | ["del", key] => (dec key).map .del
-  | ["probe", scheme, host, url, _raw] => do
-    some (.probe { scheme := (← dec scheme), host := (← dec host), url := (← dec url) })
+  | ["probe", scheme, host, url, dots, _raw] => do
+    some (.probe { scheme := (← dec scheme), host := (← dec host), url := (← dec url), dots := dots == "1" })
   | ["list"] => some .list
   | ["racebegin", _] => some .raceBegin
   | ["raceend"] => some .raceEnd
@@ -110,13 +110,13 @@ def step (st : St) (op impl : List String) : St × String × String :=
     | .reload c =>
       let bs := normalise c
       match reload? st.table bs with
-      | some t => ({ st with table := t, final := bs }, "ok", v)
-      | none => ({ st with final := bs }, "panic:model", v)
+      | some t => ({ st with static := true, table := t, final := bs }, "ok", v)
+      | none => ({ st with static := true, final := bs }, "panic:model", v)
     | .put k i => ({ st with static := false, etcd := etcdPut st.etcd k i }, "ok", v)
     | .del k => ({ st with static := false, etcd := etcdDelete st.etcd k }, "ok", v)
     | .probe p =>
-      let a := (getBackend (curTable st) p.scheme p.host p.url).map ansOf
-      let b := (getBackend (freshTable st) p.scheme p.host p.url).map ansOf
+      let a := (lookup (curTable st) p).map ansOf
+      let b := (lookup (freshTable st) p).map ansOf
       (st, s!"chain={showAns a} fresh={showAns b}", v)
     | .list => (st, s!"chain={showList (allBackends (curTable st))} fresh={showList (allBackends (freshTable st))}", v)
     | .raceBegin => (st, "ok", v)
